@@ -283,6 +283,36 @@ Proof.
   - eexists. eexists. eexists. split; [reflexivity|]. split; [reflexivity|]. split; [reflexivity|]. vm_compute. auto.
 Qed.
 
+(* ---------- hwloc_get_closest_objs ---------- *)
+
+(* for ALL dumps, ALL sources with a cpuset (normal or memory) and ALL max: the answer is, ring
+   after ring going up from src, the objects of src's level inside ancestor j+1 and not inside
+   ancestor j (j = 0, 1, ...; ancestor 0 = src), each ring in logical order, cut at max; so it
+   is ordered by ancestor distance, and complete when the array was not filled.  With
+   consistent parent pointers the chain of ancestors goes up to the root. *)
+Theorem closest_sorted_by_ancestor : forall d src max,
+  o_cs src <> None ->
+  let chain := up_chain d (S (List.length (t_objs d))) src in
+  get_closest_objs d src max = firstn (N.to_nat max) (rings (level_objs d (o_depth src)) chain) /\
+  (parents_ok d -> In src (t_objs d) -> deref d (o_parent (last chain src)) = None).
+Proof. exact closest_sorted_by_ancestor_l. Qed.
+Print Assumptions closest_sorted_by_ancestor.
+
+(* Machine 0 { Core 1 { PU 2, PU 3 }, Core 4 { PU 5 } }: from PU 2, first its sibling, then the cousin *)
+Definition ex_dump6 : dump :=
+  let mk id ty dp par li c := mkDobj id ty dp 0 None par PNull PNull PNull PNull PNull PNull 0 0 0 0 0 li None [] [] [] []
+                   (Some (bs_of_N c)) (Some (bs_of_N c)) None None 0 0 (-1) (-1) (-1) (-1) (-1) (-1) (-1) in
+  mkDump 0 3 6 [] None None
+         [mkLevel 0 (Z.of_N HWLOC_OBJ_MACHINE) 1 [PId 0] PNull; mkLevel 1 (Z.of_N HWLOC_OBJ_CORE) 2 [PId 1; PId 4] PNull;
+          mkLevel 2 (Z.of_N HWLOC_OBJ_PU) 3 [PId 2; PId 3; PId 5] PNull] []
+         [mk 0 HWLOC_OBJ_MACHINE 0%Z PNull 0 7; mk 1 HWLOC_OBJ_CORE 1%Z (PId 0) 0 3; mk 2 HWLOC_OBJ_PU 2%Z (PId 1) 0 1;
+          mk 3 HWLOC_OBJ_PU 2%Z (PId 1) 1 2; mk 4 HWLOC_OBJ_CORE 1%Z (PId 0) 1 4; mk 5 HWLOC_OBJ_PU 2%Z (PId 4) 2 4].
+Example ex_closest :
+  exists src, get ex_dump6 2 = Some src /\
+    map o_id (get_closest_objs ex_dump6 src 8) = [3; 5] /\ map o_id (get_closest_objs ex_dump6 src 1) = [3] /\
+    map o_id (up_chain ex_dump6 7 src) = [2; 1; 0].
+Proof. eexists. split; [reflexivity|]. vm_compute. auto. Qed.
+
 (* ---------- hwloc_get_obj_with_same_locality (normal / memory types) ---------- *)
 
 Theorem same_locality_sound_complete : forall d src ty,
